@@ -384,6 +384,8 @@ def generate(rng, opts):
             "sweep": rng.random() < opts.get("forth_sweep_share", 0.04)}
     if rng.random() < opts.get("forth_illformed_rate", 0.12):
         case["mutate_source"] = gen_source_mutation(rng, fm.render(prog))
+    # comments (no meaning; their text may mention the string words)
+    case["comments"] = rng.choice([1, 2, 3]) if rng.random() < 0.08 else 0
     # user words called while the program is paused: [number of the pause, word]
     case["calls_at_pause"] = [[rng.choice([1, 1, 2, 3]), rng.choice(prog["defs"])[0]] for _ in range(rng.randint(0, 2))] \
         if prog["defs"] else []
@@ -614,6 +616,10 @@ def calls_at_pause(node, case, rec, opts, drv, srcb, src, prog, cap_calls, pause
 def execute(node, case, rec, opts):
     prog = case["program"]
     src = fm.render(prog)
+    if case.get("comments"):
+        src = {1: '( a note: strings are written with ." text" or s" text" )\n',
+               2: '\\ prints with ." later\n',
+               3: '( outer ( inner s" ) still a comment ." )\n'}[case["comments"]] + src
     if case.get("mutate_source"):
         return execute_illformed(node, case, rec, apply_source_mutation(src, case["mutate_source"]))
     srcb = src.encode("latin-1")
